@@ -1,20 +1,26 @@
-//! Channels (C07): two modules `tx` and `rx`, `tx.out --channel--> rx.in`, driven through the public API.
+//! Channels (C07): two modules `a` and `b` joined by `nl` links `a.g{i} <-> b.h{i}`, driven through the
+//! public API.  Channel 2i is the forward direction of link i (a sends into g{i}), channel 2i+1 the
+//! reverse direction (b sends into h{i}); `Gate::connect` creates both instances from one template.
 //!
-//! script: `seed brk br lat jit pol lim  ntx (len tx)*  norc j*  (t len)*`
+//! script: `seed brk br lat jit pol lim  nl mode{nl'}  ntx (len tx)*  norc (c j)*  (t c len)*`
 //!   seed: Builder::seeded; bitrate = br (brk = 0) | usize::MAX (brk = 1); latency/jitter in ns;
-//!   pol: 0 Drop | 1 Queue(None) | 2 Queue(Some(lim));
-//!   the tx table and the jitter oracle are inputs of the model only (the table's lengths are
-//!   answered here with ChannelMetrics::calculate_busy, the oracle is ignored: the real rng draws);
-//!   offers: message `m` (script position) of total length max(64, len) is `send`t at time t;
-//!   consecutive offers with the same time are sent from one handler invocation (a burst), woken by
-//!   a `schedule_at` issued in at_sim_start.
+//!   pol: 0 Drop | 1 Queue(None) | 2 Queue(Some(lim)); all links have these metrics;
+//!   nl' = clamp(nl, 1, 3) links; mode of link i: 0 connected before the run with its own
+//!   `Channel::new(metrics)`; 1 connected before the run with a clone of ONE shared template handle;
+//!   2 connected at run time, inside the handler that first sends on the link (either direction), with
+//!   `g0.channel()` -- the live forward channel of link 0 -- as template (link 0 itself: mode 2 = mode 0);
+//!   the tx table and the jitter oracle are inputs of the model only (the table's lengths are answered
+//!   here with ChannelMetrics::calculate_busy, the oracle is ignored: the real rng draws);
+//!   offers: message `m` (script position) of total length max(64, len) is `send`t at time t into channel
+//!   c mod 2nl'; consecutive offers with the same time and the same sending module are sent from one
+//!   handler invocation (a burst), woken by a `schedule_at` issued in at_sim_start (a's bursts, then b's).
 //! output: `7 n (len calculate_busy(len))*` then, chronologically,
-//!   1 m t              transmission of m started at t (ChannelProbe::on_message_transmit)
-//!   2 m t              m handled by the receiver at t
-//!   3 t busy finish pk by   Channel::is_busy / transmission_finish_time / queue size as printed by
-//!                      the channel's Debug impl while busy (0 0 when idle); taken on entry of a sender
-//!                      handler, after every send, after every arrival, and in at_sim_end
-//!   4 m f              fate of the send just issued: 0 started | 1 dropped (Drop) | 2 dropped (queue
+//!   1 c m t            transmission of m started at t on channel c (ChannelProbe::on_message_transmit)
+//!   2 c m t            m handled by the receiving module at t
+//!   3 c t busy finish pk by   Channel::is_busy / transmission_finish_time / queue size as printed by the
+//!                      channel's Debug impl while busy (0 0 when idle) of channel c; taken before and after
+//!                      every send into c, after every arrival from c, and for every channel in at_sim_end
+//!   4 c m f            fate of the send just issued: 0 started | 1 dropped (Drop) | 2 dropped (queue
 //!                      cannot hold it) | 3 queued   (3 iff the queue grew by one packet)
 //! a trailing 13 if `run()` returned an error.
 use des::net::channel::ChannelProbe;
@@ -29,7 +35,7 @@ fn main() {
 }
 
 const WAKE: u16 = 1;
-const DATA: u16 = 2;
+const DATA: u16 = 100;
 const HDR: u64 = 64;
 
 #[derive(Clone, Debug)]
@@ -40,9 +46,9 @@ impl MessageBody for Blob {
     }
 }
 
-fn data_msg(m: u64, len: u64) -> Message {
+fn data_msg(c: u64, m: u64, len: u64) -> Message {
     let body = (len.max(HDR) - HDR) as usize;
-    let msg = Message::default().kind(DATA).id(m as u16);
+    let msg = Message::default().kind(DATA + c as u16).id(m as u16);
     if body == 0 {
         msg
     } else {
@@ -50,10 +56,19 @@ fn data_msg(m: u64, len: u64) -> Message {
     }
 }
 
+/// one burst: (time, side (false = module a), [(channel, msg, len)])
+type Burst = (u64, bool, Vec<(u64, u64, u64)>);
+
 #[derive(Default)]
 struct Shared {
-    bursts: Vec<(u64, Vec<(u64, u64)>)>,
-    chan: Option<ChannelRef>,
+    bursts: Vec<Burst>,
+    metrics: Option<ChannelMetrics>,
+    modes: Vec<u64>,
+    ga: Vec<GateRef>,
+    hb: Vec<GateRef>,
+    connected: Vec<bool>,
+    /// live channel instance per channel index, once its link is connected
+    chans: Vec<Option<ChannelRef>>,
     pol: u64,
     log: Vec<u64>,
     started: u64,
@@ -85,52 +100,98 @@ fn queue_of(ch: &ChannelRef) -> (u64, u64) {
     (num("packets: "), num("bytes: "))
 }
 
-fn sample(sh: &Sh) {
-    let ch = sh.lock().unwrap().chan.clone().unwrap();
-    let busy = ch.is_busy();
-    let fin = ch.transmission_finish_time().as_nanos() as u64;
-    let (pk, by) = if busy { queue_of(&ch) } else { (0, 0) };
-    sh.lock().unwrap().log.extend([3, now_ns(), busy as u64, fin, pk, by]);
+fn sample(sh: &Sh, c: u64) {
+    let ch = sh.lock().unwrap().chans[c as usize].clone();
+    let rec = match ch {
+        None => [3, c, now_ns(), 0, 0, 0, 0],
+        Some(ch) => {
+            let busy = ch.is_busy();
+            let fin = ch.transmission_finish_time().as_nanos() as u64;
+            let (pk, by) = if busy { queue_of(&ch) } else { (0, 0) };
+            [3, c, now_ns(), busy as u64, fin, pk, by]
+        }
+    };
+    sh.lock().unwrap().log.extend(rec);
 }
 
-struct Probe(Sh);
+struct Probe(u64, Sh);
 impl ChannelProbe for Probe {
     fn on_message_transmit(&mut self, _: &ChannelMetrics, msg: &Message) {
-        let mut sh = self.0.lock().unwrap();
+        let mut sh = self.1.lock().unwrap();
         sh.started += 1;
         let id = msg.header().id as u64;
-        sh.log.extend([1, id, now_ns()]);
+        sh.log.extend([1, self.0, id, now_ns()]);
     }
 }
 
-struct Sender(Sh);
-impl Module for Sender {
+/// `g{i}.connect(h{i}, template)`, then look the two instances up and attach the probes.
+/// An instance that already serves an earlier channel (the same Arc) keeps its first probe.
+fn connect_link(sh: &Sh, i: usize, template: ChannelRef) {
+    let (g, h) = {
+        let s = sh.lock().unwrap();
+        (s.ga[i].clone(), s.hb[i].clone())
+    };
+    g.clone().connect(h.clone(), Some(template));
+    let fwd = g.channel();
+    let rev = h.channel();
+    for (c, ch) in [(2 * i, fwd), (2 * i + 1, rev)] {
+        if let Some(ch) = ch {
+            let known = sh.lock().unwrap().chans.iter().flatten().any(|o| Arc::ptr_eq(o, &ch));
+            if !known {
+                ch.attach_probe(Probe(c as u64, sh.clone()));
+            }
+            sh.lock().unwrap().chans[c] = Some(ch);
+        }
+    }
+    sh.lock().unwrap().connected[i] = true;
+}
+
+struct Node(bool, Sh);
+impl Module for Node {
     fn at_sim_start(&mut self, _stage: usize) {
-        let (ch, times): (ChannelRef, Vec<u64>) = {
-            let sh = self.0.lock().unwrap();
-            (sh.chan.clone().unwrap(), sh.bursts.iter().map(|b| b.0).collect())
+        let times: Vec<(usize, u64)> = {
+            let sh = self.1.lock().unwrap();
+            sh.bursts.iter().enumerate().filter(|(_, b)| b.1 == self.0).map(|(k, b)| (k, b.0)).collect()
         };
-        ch.attach_probe(Probe(self.0.clone()));
-        for (k, t) in times.iter().enumerate() {
-            schedule_at(Message::default().kind(WAKE).id(k as u16), at(*t));
+        for (k, t) in times {
+            schedule_at(Message::default().kind(WAKE).id(k as u16), at(t));
         }
     }
 
     fn handle_message(&mut self, msg: Message) {
-        if msg.header().kind != WAKE {
+        let kind = msg.header().kind;
+        if kind >= DATA {
+            let c = (kind - DATA) as u64;
+            let id = msg.header().id as u64;
+            self.1.lock().unwrap().log.extend([2, c, id, now_ns()]);
+            sample(&self.1, c);
+            return;
+        }
+        if kind != WAKE {
             return;
         }
         let k = msg.header().id as usize;
-        let (ch, offs, pol) = {
-            let sh = self.0.lock().unwrap();
-            (sh.chan.clone().unwrap(), sh.bursts[k].1.clone(), sh.pol)
+        let (offs, pol) = {
+            let sh = self.1.lock().unwrap();
+            (sh.bursts[k].2.clone(), sh.pol)
         };
-        sample(&self.0);
-        for (m, len) in offs {
-            let started0 = self.0.lock().unwrap().started;
+        for (c, m, len) in offs {
+            let link = (c / 2) as usize;
+            if !self.1.lock().unwrap().connected[link] {
+                // run-time connect: the template is the handle of link 0's live forward channel
+                let template = self.1.lock().unwrap().ga[0].channel().unwrap();
+                connect_link(&self.1, link, template);
+            }
+            let ch = self.1.lock().unwrap().chans[c as usize].clone().unwrap();
+            sample(&self.1, c);
+            let started0 = self.1.lock().unwrap().started;
             let pk0 = if ch.is_busy() { queue_of(&ch).0 } else { 0 };
-            send(data_msg(m, len), "out");
-            let started1 = self.0.lock().unwrap().started;
+            let gate = {
+                let sh = self.1.lock().unwrap();
+                if c % 2 == 0 { sh.ga[link].clone() } else { sh.hb[link].clone() }
+            };
+            send(data_msg(c, m, len), gate);
+            let started1 = self.1.lock().unwrap().started;
             let fate = if started1 != started0 {
                 0
             } else if ch.is_busy() && queue_of(&ch).0 == pk0 + 1 {
@@ -140,28 +201,24 @@ impl Module for Sender {
             } else {
                 2
             };
-            self.0.lock().unwrap().log.extend([4, m, fate]);
-            sample(&self.0);
+            self.1.lock().unwrap().log.extend([4, c, m, fate]);
+            sample(&self.1, c);
         }
     }
 
     fn at_sim_end(&mut self) -> Result<(), RuntimeError> {
-        sample(&self.0);
+        if !self.0 {
+            let n = self.1.lock().unwrap().chans.len() as u64;
+            for c in 0..n {
+                sample(&self.1, c);
+            }
+        }
         Ok(())
     }
 }
 
-struct Receiver(Sh);
-impl Module for Receiver {
-    fn handle_message(&mut self, msg: Message) {
-        let id = msg.header().id as u64;
-        self.0.lock().unwrap().log.extend([2, id, now_ns()]);
-        sample(&self.0);
-    }
-}
-
 fn run_line(nums: &[u64]) -> Vec<u64> {
-    if nums.len() < 7 {
+    if nums.len() < 8 {
         return vec![8];
     }
     let mut cur = Cur::new(nums);
@@ -172,22 +229,33 @@ fn run_line(nums: &[u64]) -> Vec<u64> {
     let jit = cur.next();
     let pol = cur.next();
     let lim = cur.next();
+    let nl = cur.next().clamp(1, 3) as usize;
+    let mut modes: Vec<u64> = (0..nl).map(|_| cur.next()).collect();
+    if modes[0] == 2 {
+        modes[0] = 0;
+    }
     let tb = cur.take_lp();
     let _oracle = cur.take_lp();
-    let mut offers: Vec<(u64, u64)> = Vec::new();
-    while cur.left() >= 2 {
+    let k = 2 * nl as u64;
+    let mut offers: Vec<(u64, u64, u64)> = Vec::new();
+    while cur.left() >= 3 {
         let t = cur.next();
+        let c = cur.next() % k;
         let len = cur.next().max(HDR);
-        offers.push((t, len));
+        offers.push((t, c, len));
     }
-    // consecutive offers with the same time form one burst
-    let mut bursts: Vec<(u64, Vec<(u64, u64)>)> = Vec::new();
-    for (m, (t, len)) in offers.iter().enumerate() {
-        match bursts.last_mut() {
-            Some(b) if b.0 == *t => b.1.push((m as u64, *len)),
-            _ => bursts.push((*t, vec![(m as u64, *len)])),
+    // consecutive offers with the same time and the same sending module form one burst
+    let mut grouped: Vec<Burst> = Vec::new();
+    for (m, (t, c, len)) in offers.iter().enumerate() {
+        let side = c % 2 == 1;
+        match grouped.last_mut() {
+            Some(b) if b.0 == *t && b.1 == side => b.2.push((*c, m as u64, *len)),
+            _ => grouped.push((*t, side, vec![(*c, m as u64, *len)])),
         }
     }
+    // module a schedules its wake-ups first, then module b: burst indices follow that order
+    let mut bursts: Vec<Burst> = grouped.iter().filter(|b| !b.1).cloned().collect();
+    bursts.extend(grouped.iter().filter(|b| b.1).cloned());
 
     let metrics = ChannelMetrics {
         bitrate: if brk == 1 { usize::MAX } else { br as usize },
@@ -203,7 +271,7 @@ fn run_line(nums: &[u64]) -> Vec<u64> {
     let horizon: u64 = offers.iter().map(|o| o.0).max().unwrap_or(0)
         + offers
             .iter()
-            .map(|o| metrics.calculate_busy(&data_msg(0, o.1)).as_nanos() as u64)
+            .map(|o| metrics.calculate_busy(&data_msg(0, 0, o.2)).as_nanos() as u64)
             .sum::<u64>()
         + lat
         + jit;
@@ -211,24 +279,36 @@ fn run_line(nums: &[u64]) -> Vec<u64> {
     for p in tb.chunks(2) {
         if p.len() == 2 {
             out.push(p[0]);
-            out.push(metrics.calculate_busy(&data_msg(0, p[0])).as_nanos() as u64);
+            out.push(metrics.calculate_busy(&data_msg(0, 0, p[0])).as_nanos() as u64);
         }
     }
 
     let sh: Sh = Arc::new(Mutex::new(Shared::default()));
     let mut sim = Sim::new(());
-    sim.node("tx", Sender(sh.clone()));
-    sim.node("rx", Receiver(sh.clone()));
-    let g_out = sim.gate("tx", "out");
-    let g_in = sim.gate("rx", "in");
-    g_out.clone().connect(g_in, Some(Channel::new(metrics)));
+    sim.node("a", Node(false, sh.clone()));
+    sim.node("b", Node(true, sh.clone()));
     {
         let mut s = sh.lock().unwrap();
-        s.chan = g_out.channel();
+        for i in 0..nl {
+            s.ga.push(sim.gate("a", &format!("g{i}")));
+            s.hb.push(sim.gate("b", &format!("h{i}")));
+        }
+        s.connected = vec![false; nl];
+        s.chans = vec![None; 2 * nl];
         s.bursts = bursts;
         s.pol = pol;
+        s.metrics = Some(metrics);
+        s.modes = modes.clone();
     }
-    drop(g_out);
+    let shared_template = Channel::new(metrics);
+    for (i, mode) in modes.iter().enumerate() {
+        match mode {
+            1 => connect_link(&sh, i, shared_template.clone()),
+            2 => {}
+            _ => connect_link(&sh, i, Channel::new(metrics)),
+        }
+    }
+    drop(shared_template);
 
     // The calendar queue scans bucket by bucket (default width 2.5 ms): keep the number of buckets a run
     // walks over bounded by widening them for long horizons (C01: results do not depend on (n, t)).
@@ -242,7 +322,9 @@ fn run_line(nums: &[u64]) -> Vec<u64> {
     std::panic::set_hook(Box::new(|_| {}));
     let mut s = sh.lock().unwrap();
     out.extend(std::mem::take(&mut s.log));
-    s.chan = None;
+    s.chans.clear();
+    s.ga.clear();
+    s.hb.clear();
     s.bursts.clear();
     match res {
         Ok(Ok(_)) => {}
